@@ -20,4 +20,4 @@ Definition u_pos_consts : list (string * Z) := [("ONE", 1); ("TWO", 2); ("THREE"
 Definition i_pos_consts : list (string * Z) := [("TWO", 2); ("THREE", 3); ("FOUR", 4); ("FIVE", 5); ("SIX", 6); ("SEVEN", 7); ("EIGHT", 8); ("NINE", 9); ("TEN", 10)].
 Definition i_neg_consts : list (string * Z) := [("NEG_ONE", 1); ("NEG_TWO", 2); ("NEG_THREE", 3); ("NEG_FOUR", 4); ("NEG_FIVE", 5); ("NEG_SIX", 6); ("NEG_SEVEN", 7); ("NEG_EIGHT", 8); ("NEG_NINE", 9); ("NEG_TEN", 10)].
 (* the defining expressions of the constants have the shape the model (Model/Consts.v) transcribes *)
-Definition const_shapes : list (string * bool) := [("u_pos_const_is_from_digit", true); ("u_min_all_digit_min", true); ("u_max_all_digit_max", true); ("u_bits_is_digit_bits_times_n", true); ("u_bytes_is_bits_div_8", false); ("u_zero_is_min", true); ("i_pos_const_is_u_const", true); ("i_neg_const_is_max_minus", true); ("i_min_top_bit", true); ("i_max_top_shr1", true); ("i_bits_is_u_bits", true); ("i_bytes_is_u_bytes", true); ("i_zero_is_u_zero", true); ("i_one_is_u_one", true)].
+Definition const_shapes : list (string * bool) := [("u_pos_const_is_from_digit", true); ("u_min_all_digit_min", true); ("u_max_all_digit_max", true); ("u_bits_is_digit_bits_times_n", true); ("u_bytes_is_bits_div_8", true); ("u_zero_is_min", true); ("i_pos_const_is_u_const", true); ("i_neg_const_is_max_minus", true); ("i_min_top_bit", true); ("i_max_top_shr1", true); ("i_bits_is_u_bits", true); ("i_bytes_is_u_bytes", true); ("i_zero_is_u_zero", true); ("i_one_is_u_one", true)].
